@@ -10,7 +10,7 @@ import (
 func init() {
 	register(&propDef{
 		ID:       "C10",
-		Explain:  "Decided for ctree (structural necessary conditions): guarded-by (every read of a node's leafBranch holds that node's mu, every write its write lock; helpers' entry locksets established at every call site; objects not yet published exempt); lock coupling (the caller's node lock is held at every recursive descent call); the re-check of the child map inside the write epoch before a new child is inserted; no lock upgrade or re-entrant acquisition (directly or through a callee); every acquire released on all exits; visitors passed to Query/Walk inside the module do not call back into ctree.",
+		Explain:  "Decided for ctree (structural necessary conditions): guarded-by (every read of a node's leafBranch holds that node's mu, every write its write lock; helpers' entry locksets established at every call site; objects not yet published exempt); lock coupling (the caller's node lock is held at every recursive descent call); the re-check of the child map inside the write epoch before a new child is inserted; no lock upgrade or re-entrant acquisition (directly or through a callee); every acquire released on all exits; visitors passed to Query/Walk inside the module do not call back into ctree. Round-3 additions: the children map never leaves package ctree (only (*Tree).Value - nil for a branch - and the leaf-handle accessor return a node's content), and an add tests the node and stores into it under one write lock (add-atomic table borrowed from C09).",
 		NotCover: "linearizability, query stability, panic-freedom under races",
 		Run:      runC10,
 	})
